@@ -90,6 +90,7 @@ def one(diff):
         wts.put(wt)
 diffs=sorted(glob.glob(V+'/fixtures/refactors/C*.diff'))
 if only: diffs=[d for d in diffs if os.path.basename(d)[:3] in only]
+if os.environ.get('RS_MATCH'): diffs=[d for d in diffs if re.search(os.environ['RS_MATCH'], os.path.basename(d))]
 tot=surv=0
 with cf.ThreadPoolExecutor(NW) as ex:
     for name,r in ex.map(one,diffs):
